@@ -7,6 +7,7 @@ import ast, sys, builtins, importlib.abc, importlib.machinery, importlib.util, o
 REPO = os.environ.get("VERIF_REPO", "/repo")
 DISPATCH = "__symcall__"
 CONTAINS = "__symin__"
+FSTRING = "__symfstr__"
 SKIP_NAMES = {"super", "locals", "globals", "vars", "eval", "exec", "dir"}
 
 
@@ -28,6 +29,19 @@ class CallRewriter(ast.NodeTransformer):
                 call = ast.UnaryOp(op=ast.Not(), operand=call)
             return ast.copy_location(call, node)
         return node
+
+
+    def visit_JoinedStr(self, node):
+        self.generic_visit(node)
+        parts = []
+        for v in node.values:
+            if isinstance(v, ast.Constant):
+                parts.append(v)
+            else:  # FormattedValue
+                spec = v.format_spec if v.format_spec is not None else ast.Constant(value="")
+                parts.append(ast.Tuple(elts=[v.value, ast.Constant(value=v.conversion), spec], ctx=ast.Load()))
+        call = ast.Call(func=ast.Name(id=FSTRING, ctx=ast.Load()), args=parts, keywords=[])
+        return ast.copy_location(call, node)
 
 
 def transform_source(source, filename):
@@ -71,9 +85,10 @@ class Finder(importlib.abc.MetaPathFinder):
         return None
 
 
-def install(dispatch, contains):
+def install(dispatch, contains, fstring):
     setattr(builtins, DISPATCH, dispatch)
     setattr(builtins, CONTAINS, contains)
+    setattr(builtins, FSTRING, fstring)
     # `dissect` is a namespace package of /venv; make sure the cstruct sub-package comes from REPO
     for m in [m for m in sys.modules if m == "dissect.cstruct" or m.startswith("dissect.cstruct.")]:
         del sys.modules[m]
